@@ -202,7 +202,15 @@ pub enum Op {
     /// world utxo -> add_key_input / add_bootstrap_input by kind (the older entry points)
     InLegacy(usize),
     /// script-locked world utxo with its witness; `by_utxo` chooses add_*_script_utxo over add_*_script_input
-    InScript { utxo: usize, wit: Wit, by_utxo: bool },
+    InScript {
+        utxo: usize,
+        wit: Wit,
+        by_utxo: bool,
+        /// the input is first handed over with this other Plutus script by mistake (the entry point does not
+        /// look at the address), then correctly: the later call is the one that counts
+        #[serde(default, skip_serializing_if = "Option::is_none")]
+        mistaken: Option<ScriptId>,
+    },
     InReqSigner(KeyId),
     /// a key-owned UTxO first added by mistake as a Plutus-script input (the entry point does not
     /// look at the address), then added again correctly as a regular input: the second call replaces the first
